@@ -180,6 +180,7 @@ def finish(rep, replay=None):
         'unresolved': rep.unresolved[:50],
         'unresolved_count': len(rep.unresolved),
         'samples': samples,
+        'functions': sorted({'%s:%s' % (o.module, o.qualname) for o in rep.obligations if o.module and o.qualname}),
         'trusted_base': rep.trusted_base,
         'exhaustive': True,
         'notes': rep.notes,
